@@ -42,7 +42,14 @@ func isHandledSelectStmt(l *lexer, keyspace Identifier) (handled bool, stmt Stat
 	}
 
 	qualifyingKeyspace, table, t, err := parseQualifiedIdentifier(l)
-	if err != nil || (!keyspace.equal("system") && !qualifyingKeyspace.equal("system")) || !isSystemTable(table) {
+	if err != nil {
+		return false, nil, err
+	}
+	// The table's keyspace is its qualifier; the connection's current keyspace only applies to unqualified tables
+	if !qualifyingKeyspace.isEmpty() {
+		keyspace = qualifyingKeyspace
+	}
+	if !keyspace.equal("system") || !isSystemTable(table) {
 		return false, nil, err
 	}
 
